@@ -15,7 +15,8 @@
     On a constructed content it is a content error on every source.
   * `skipContent_*`: `BitString::skip_content` accepts exactly the same contents and leaves exactly
     the same source state.
-  * Values (`bitLen_eq`, `bit_eq_spec`, `bit_lt`, `bit_ge`, `bit_lt_explicit`): for every `s : BitString`
+  * Values (`bitLen_eq`, `bit_eq_spec`, `bit_lt`, `bit_ge`, `bit_lt_explicit`, `bit_two_part`,
+    `bits_list`, `accepted_bits`): for every `s : BitString`
     that satisfies the invariant of `BitString::new` (`unused ≤ 7`, `unused = 0` if there are no data
     octets) — which every accepted value does (`accepted_invariant`) — `bit_len` is
     `8 * octets - unused` (no underflow panic), and for EVERY index `i : Nat` `bit i` is the `i`-th
@@ -26,6 +27,9 @@
     encoding of `s` is `unused :: bits`, its announced length is the length of that, decoding it
     gives back `s` (when the acceptance condition holds), and re-encoding an accepted value
     reproduces the content octets.
+
+  * `fromContent_runG_ok`, `fromContent_runG_err`: the acceptance result transferred to the
+    contract-checking layer `runG` that the test driver runs.
 
   NOT covered here:
   * the octet views (`octet_len`, `octets`, `octet_slice`, `octet_bytes`) are plain projections of
@@ -386,4 +390,343 @@ theorem skipContent_ok_iff (m : Mode) (c rest : Bytes) :
   by_cases ha : accepts m c = true
   · simp [ha]
   · simp [ha]
+
+/-! ### the bits of a value -/
+
+/-- bit `k` (0 = most significant) of an octet -/
+def msbBit (o : UInt8) (k : Nat) : Bool := (o.toNat / 2 ^ (7 - k)) % 2 == 1
+
+theorem and_one_shl_ne_zero (n b : Nat) : ((n &&& (1 <<< b)) != 0) = (n / 2 ^ b % 2 == 1) := by
+  rw [Nat.one_shiftLeft]
+  have key : ((n &&& 2 ^ b) = 0) ↔ n.testBit b = false := by
+    constructor
+    · intro h
+      have := congrArg (fun x => Nat.testBit x b) h
+      simpa [Nat.testBit_and, Nat.testBit_two_pow_self] using this
+    · intro h
+      apply Nat.eq_of_testBit_eq
+      intro j
+      simp only [Nat.testBit_and, Nat.testBit_two_pow, Nat.zero_testBit]
+      by_cases hj : b = j
+      · subst hj; simp [h]
+      · simp [hj]
+  rw [Nat.testBit_eq_decide_div_mod_eq] at key
+  by_cases h : n / 2 ^ b % 2 = 1
+  · have : ¬ (n &&& 2 ^ b) = 0 := fun h0 => by simpa [h] using key.mp h0
+    simp [h, this]
+  · have : (n &&& 2 ^ b) = 0 := key.mpr (by simp [h])
+    simp [h, this]
+
+theorem bitsOfByte_length (b : UInt8) : (bitsOfByte b).length = 8 := rfl
+
+theorem bitsOf_cons (b : UInt8) (bs : Bytes) : bitsOf (b :: bs) = bitsOfByte b ++ bitsOf bs := by
+  simp [bitsOf]
+
+theorem bitsOf_length (bs : Bytes) : (bitsOf bs).length = 8 * bs.length := by
+  induction bs with
+  | nil => rfl
+  | cons b bs ih => rw [bitsOf_cons, List.length_append, ih, bitsOfByte_length, List.length_cons]; omega
+
+theorem bitsOfByte_get (b : UInt8) (k : Nat) (hk : k < 8) : (bitsOfByte b)[k]? = some (msbBit b k) := by
+  have : k = 0 ∨ k = 1 ∨ k = 2 ∨ k = 3 ∨ k = 4 ∨ k = 5 ∨ k = 6 ∨ k = 7 := by omega
+  rcases this with h | h | h | h | h | h | h | h <;> subst h <;> rfl
+
+/-- the reference bit list, indexed: bit `i` is bit `i % 8` (MSB first) of octet `i / 8` -/
+theorem bitsOf_get (bs : Bytes) (i : Nat) :
+    (bitsOf bs)[i]? = (bs[i / 8]?).map fun o => msbBit o (i % 8) := by
+  induction bs generalizing i with
+  | nil => simp [bitsOf]
+  | cons b bs ih =>
+    rw [bitsOf_cons, List.getElem?_append, bitsOfByte_length]
+    by_cases hi : i < 8
+    · have h0 : i / 8 = 0 := by omega
+      have h1 : i % 8 = i := by omega
+      simp only [hi, if_true, h0, h1, List.getElem?_cons_zero, Option.map]
+      exact bitsOfByte_get b i hi
+    · have h0 : i / 8 = (i - 8) / 8 + 1 := by omega
+      have h1 : i % 8 = (i - 8) % 8 := by omega
+      simp only [hi, if_false, ih, h0, h1, List.getElem?_cons_succ]
+
+theorem specBits_length (u : Nat) (data : Bytes) : (specBits u data).length = 8 * data.length - u := by
+  simp only [specBits, List.length_take, bitsOf_length]; omega
+
+theorem specBits_get (u : Nat) (data : Bytes) (i : Nat) :
+    (specBits u data)[i]? =
+      if i < 8 * data.length - u then (data[i / 8]?).map fun o => msbBit o (i % 8) else none := by
+  simp only [specBits, List.getElem?_take, bitsOf_get]
+
+/-- the invariant of `BitString::new` -/
+def Inv (s : BitString) : Prop := s.unused.toNat ≤ 7 ∧ (s.bits = [] → s.unused = 0)
+
+instance (s : BitString) : Decidable (Inv s) := by unfold Inv; exact inferInstance
+
+/-- every accepted content decodes to a value satisfying the invariant -/
+theorem accepted_invariant (m : Mode) (u : UInt8) (data : Bytes) (h : accepts m (u :: data) = true) :
+    Inv ⟨u, data⟩ := by
+  obtain ⟨h1, h2, _⟩ := (accepts_cons_iff m u data).mp h
+  exact ⟨h1, h2⟩
+
+theorem inv_unused_le (s : BitString) (h : Inv s) : s.unused.toNat ≤ 8 * s.bits.length := by
+  obtain ⟨h1, h2⟩ := h
+  cases hb : s.bits with
+  | nil => rw [h2 hb]; simp
+  | cons b t => simp only [List.length_cons]; omega
+
+/-- **C19 (bit length)**: eight times the number of data octets minus the unused count; the
+    subtraction does not underflow -/
+theorem bitLen_eq (s : BitString) (h : Inv s) :
+    s.bitLen = .ok (8 * s.bits.length - s.unused.toNat) := by
+  have hle := inv_unused_le s h
+  unfold BitString.bitLen
+  have e : s.bits.length <<< 3 = 8 * s.bits.length := by rw [Nat.shiftLeft_eq]; omega
+  rw [e]
+  have : ¬ 8 * s.bits.length < s.unused.toNat := by omega
+  rw [if_neg this]
+
+/-- … which is the length of the reference bit list -/
+theorem bitLen_eq_spec (s : BitString) (h : Inv s) :
+    s.bitLen = .ok (specBits s.unused.toNat s.bits).length := by
+  rw [bitLen_eq s h, specBits_length]
+
+/-- without the invariant `bit_len` is an arithmetic underflow (a panic in debug builds): the
+    hypothesis of `bitLen_eq` is needed -/
+theorem bitLen_panics : (⟨3, []⟩ : BitString).bitLen = .error (.panic "bit_len underflow") := rfl
+
+theorem bit_index_low (i : Nat) : i % 256 &&& 7 = i % 8 := by
+  have : (7 : Nat) = 2 ^ 3 - 1 := rfl
+  rw [this, Nat.and_two_pow_sub_one_eq_mod]
+  omega
+
+/-- `BitString::bit` computed: for every index -/
+theorem bit_eq (s : BitString) (h : Inv s) (i : Nat) :
+    s.bit i = if i < 8 * s.bits.length - s.unused.toNat then
+        (match s.bits[i / 8]? with | some o => msbBit o (i % 8) | none => false)
+      else false := by
+  have hu := h.1
+  unfold BitString.bit
+  simp only [Nat.shiftRight_eq_div_pow, bit_index_low, and_one_shl_ne_zero]
+  have e8 : (2 : Nat) ^ 3 = 8 := rfl
+  rw [e8]
+  by_cases h1 : s.bits.length ≤ i / 8
+  · have : ¬ i < 8 * s.bits.length - s.unused.toNat := by omega
+    rw [if_pos h1, if_neg this]
+  · rw [if_neg h1]
+    by_cases h2 : (s.bits.length == i / 8 + 1 && decide (s.unused.toNat > 7 - i % 8)) = true
+    · rw [if_pos h2]
+      simp only [Bool.and_eq_true, beq_iff_eq, decide_eq_true_eq] at h2
+      have : ¬ i < 8 * s.bits.length - s.unused.toNat := by omega
+      rw [if_neg this]
+    · rw [if_neg h2]
+      simp only [Bool.and_eq_true, beq_iff_eq, decide_eq_true_eq, not_and] at h2
+      have : i < 8 * s.bits.length - s.unused.toNat := by
+        by_cases hl : s.bits.length = i / 8 + 1
+        · have := h2 hl; omega
+        · omega
+      rw [if_pos this]
+      cases s.bits[i / 8]? <;> rfl
+
+/-- **C19 (bits), one statement for every index**: `bit i` is the `i`-th element of the reference
+    bit list (MSB first, cut at the bit length) and `false` outside it.  (The `getD` default is the
+    content of the property here — "false at or beyond the bit length" — and `bit_lt` / `bit_ge`
+    below state the two halves separately without it.) -/
+theorem bit_eq_spec (s : BitString) (h : Inv s) (i : Nat) :
+    s.bit i = (specBits s.unused.toNat s.bits).getD i false := by
+  rw [List.getD_eq_getElem?_getD, specBits_get, bit_eq s h i]
+  by_cases hi : i < 8 * s.bits.length - s.unused.toNat
+  · simp only [hi, if_true]
+    cases s.bits[i / 8]? <;> rfl
+  · simp only [hi, if_false]
+    rfl
+
+/-- **C19 (bits below the bit length)**: the reference bit list has an `i`-th element and `bit i`
+    is it -/
+theorem bit_lt (s : BitString) (h : Inv s) (i : Nat) (hi : i < 8 * s.bits.length - s.unused.toNat) :
+    (specBits s.unused.toNat s.bits)[i]? = some (s.bit i) ∧ (bitsOf s.bits)[i]? = some (s.bit i) := by
+  have hidx : i / 8 < s.bits.length := by omega
+  rw [specBits_get, bitsOf_get, bit_eq s h i]
+  simp only [hi, if_true]
+  rw [List.getElem?_eq_getElem hidx]
+  exact ⟨rfl, rfl⟩
+
+/-- the same, spelled out: octet `i / 8` exists and `bit i` is its bit `7 - i % 8` -/
+theorem bit_lt_explicit (s : BitString) (h : Inv s) (i : Nat)
+    (hi : i < 8 * s.bits.length - s.unused.toNat) :
+    ∃ o, s.bits[i / 8]? = some o ∧ s.bit i = ((o.toNat / 2 ^ (7 - i % 8)) % 2 == 1) := by
+  have hidx : i / 8 < s.bits.length := by omega
+  refine ⟨s.bits[i / 8], List.getElem?_eq_getElem hidx, ?_⟩
+  rw [bit_eq s h i]
+  simp only [hi, if_true, List.getElem?_eq_getElem hidx]
+  rfl
+
+/-- **C19 (bits at or beyond the bit length)** are `false` -/
+theorem bit_ge (s : BitString) (h : Inv s) (i : Nat) (hi : 8 * s.bits.length - s.unused.toNat ≤ i) :
+    s.bit i = false := by
+  rw [bit_eq s h i]
+  have : ¬ i < 8 * s.bits.length - s.unused.toNat := by omega
+  rw [if_neg this]
+
+/-- **C19 (bits), in the two-part form of the property text**, relative to what `bit_len` returns -/
+theorem bit_two_part (s : BitString) (h : Inv s) :
+    ∃ n, s.bitLen = .ok n ∧ n = 8 * s.bits.length - s.unused.toNat ∧
+      (∀ i, i < n → (bitsOf s.bits)[i]? = some (s.bit i)) ∧
+      (∀ i, n ≤ i → s.bit i = false) :=
+  ⟨_, bitLen_eq s h, rfl, fun i hi => (bit_lt s h i hi).2, fun i hi => bit_ge s h i hi⟩
+
+/-- the bits the accessor exposes are exactly the reference bits: listing `bit 0 … bit (n-1)` gives
+    `specBits` -/
+theorem bits_list (s : BitString) (h : Inv s) :
+    (List.range (8 * s.bits.length - s.unused.toNat)).map s.bit = specBits s.unused.toNat s.bits := by
+  apply List.ext_getElem?
+  intro i
+  by_cases hi : i < 8 * s.bits.length - s.unused.toNat
+  · rw [(bit_lt s h i hi).1, List.getElem?_map, List.getElem?_range hi]
+    rfl
+  · have h1 : (List.map s.bit (List.range (8 * s.bits.length - s.unused.toNat))).length ≤ i := by
+      simp only [List.length_map, List.length_range]; omega
+    have h2 : (specBits s.unused.toNat s.bits).length ≤ i := by rw [specBits_length]; omega
+    rw [List.getElem?_eq_none h1, List.getElem?_eq_none h2]
+
+/-! ### encoding and round trip -/
+
+/-- the content octets written for a value: the unused count, then the data octets unchanged -/
+theorem enc_eq (s : BitString) : s.enc = s.unused :: s.bits := rfl
+
+/-- the announced content length is the length of what is written -/
+theorem encLen_eq (s : BitString) : s.encLen = s.enc.length := rfl
+
+/-- **C19 (round trip, encode then decode)**: decoding the encoding of `s` gives `s` back and
+    consumes exactly the encoding, provided the acceptance condition holds … -/
+theorem roundtrip (m : Mode) (s : BitString) (rest : Bytes) (h : accepts m s.enc = true) :
+    runG0 (fromContentChecked (.prim m)) (St (s.enc ++ rest) (some s.encLen)) =
+      .ok ((s, .prim m), St rest (some 0)) := by
+  rw [encLen_eq, fromContent_exhausted_run]
+  simp only [enc_eq] at h ⊢
+  simp only [decoded, h, if_true]
+
+/-- … and fails with a content error otherwise -/
+theorem roundtrip_rejects (m : Mode) (s : BitString) (rest : Bytes) (h : accepts m s.enc = false) :
+    runG0 (fromContentChecked (.prim m)) (St (s.enc ++ rest) (some s.encLen)) = .error .content := by
+  rw [encLen_eq]
+  exact fromContent_rejects m s.enc rest h
+
+/-- the acceptance condition for an encoding is the invariant of `BitString::new` plus the CER
+    size limit -/
+theorem accepts_enc_iff (m : Mode) (s : BitString) :
+    accepts m s.enc = true ↔ Inv s ∧ (m = .cer → s.encLen ≤ 1000) := by
+  rw [enc_eq, accepts_cons_iff]
+  constructor
+  · rintro ⟨h1, h2, h3⟩
+    exact ⟨⟨h1, h2⟩, fun hm => by have := h3 hm; simpa [BitString.encLen] using this⟩
+  · rintro ⟨⟨h1, h2⟩, h3⟩
+    exact ⟨h1, h2, fun hm => by have := h3 hm; simpa [BitString.encLen] using this⟩
+
+/-- in BER and DER every value satisfying the invariant round-trips -/
+theorem roundtrip_inv (m : Mode) (hm : m ≠ .cer) (s : BitString) (rest : Bytes) (h : Inv s) :
+    runG0 (fromContentChecked (.prim m)) (St (s.enc ++ rest) (some s.encLen)) =
+      .ok ((s, .prim m), St rest (some 0)) :=
+  roundtrip m s rest ((accepts_enc_iff m s).mpr ⟨h, fun h' => absurd h' hm⟩)
+
+/-- **C19 (round trip, decode then encode)**: whatever `from_content` returns re-encodes to the
+    content octets it was decoded from, and its data octets are the content after the first -/
+theorem decode_enc_content (m : Mode) (c rest : Bytes) (s : BitString) (k : Content) (g : G0)
+    (h : runG0 (fromContentChecked (.prim m)) (St (c ++ rest) (some c.length)) = .ok ((s, k), g)) :
+    s.enc = c ∧ s.encLen = c.length ∧ s.bits = c.drop 1 ∧ c.head? = some s.unused ∧ Inv s ∧
+      k = .prim m ∧ g = St rest (some 0) := by
+  rw [fromContent_exhausted_run] at h
+  cases c with
+  | nil => cases h
+  | cons u data =>
+    simp only [decoded] at h
+    by_cases ha : accepts m (u :: data) = true
+    · simp only [ha, if_true, Except.ok.injEq, Prod.mk.injEq] at h
+      obtain ⟨⟨hs, hk⟩, hg⟩ := h
+      subst hs
+      exact ⟨rfl, rfl, rfl, rfl, accepted_invariant m u data ha, hk.symm, hg.symm⟩
+    · simp only [ha, Bool.false_eq_true, if_false] at h
+      cases h
+
+/-- everything together for an accepted content: the decoded value, its bit length and its bits -/
+theorem accepted_bits (m : Mode) (u : UInt8) (data rest : Bytes) (h : accepts m (u :: data) = true) :
+    runG0 (fromContentChecked (.prim m)) (St (u :: data ++ rest) (some (u :: data).length)) =
+        .ok ((⟨u, data⟩, .prim m), St rest (some 0)) ∧
+      (⟨u, data⟩ : BitString).bitLen = .ok (8 * data.length - u.toNat) ∧
+      (∀ i, i < 8 * data.length - u.toNat →
+        (bitsOf data)[i]? = some ((⟨u, data⟩ : BitString).bit i)) ∧
+      (∀ i, 8 * data.length - u.toNat ≤ i → (⟨u, data⟩ : BitString).bit i = false) ∧
+      (⟨u, data⟩ : BitString).enc = u :: data := by
+  have hinv := accepted_invariant m u data h
+  refine ⟨?_, bitLen_eq _ hinv, fun i hi => (bit_lt _ hinv i hi).2, fun i hi => bit_ge _ hinv i hi, rfl⟩
+  have := fromContent_exhausted_run m (u :: data) rest
+  simp only [decoded, h, if_true] at this
+  exact this
+
+/-! ### the same on the contract-checking layer `runG` -/
+
+/-- on the layer the test driver executes (`runG`, which adds the ghost grant watermark): a
+    successful run means the content is accepted and the value is exactly `⟨first, remaining⟩` -/
+theorem fromContent_runG_ok (m : Mode) (c rest : Bytes) (s : BitString) (k : Content) (g' : G)
+    (h : runG (fromContentChecked (.prim m)) { data := c ++ rest, limit := some c.length } = .ok ((s, k), g')) :
+    accepts m c = true ∧ s.enc = c ∧ Inv s ∧ k = .prim m ∧ g'.data = rest ∧ g'.limit = some 0 := by
+  have h0 := sim0_ok _ _ _ _ h
+  have he : ({ data := c ++ rest, limit := some c.length } : G).erase = St (c ++ rest) (some c.length) := rfl
+  rw [he] at h0
+  have ha : accepts m c = true := (fromContent_ok_iff m c rest).mp ⟨_, h0⟩
+  obtain ⟨h1, _, _, _, h5, h6, h7⟩ := decode_enc_content m c rest s k g'.erase h0
+  exact ⟨ha, h1, h5, h6, congrArg G0.data h7, congrArg G0.limit h7⟩
+
+/-- … and a failure that is not a panic means the content is not accepted -/
+theorem fromContent_runG_err (m : Mode) (c rest : Bytes) (e : Err) (hp : e.isPanic = false)
+    (h : runG (fromContentChecked (.prim m)) { data := c ++ rest, limit := some c.length } = .error e) :
+    accepts m c = false ∧ e = .content := by
+  have h0 := sim0_err _ _ _ h hp
+  have he : ({ data := c ++ rest, limit := some c.length } : G).erase = St (c ++ rest) (some c.length) := rfl
+  rw [he] at h0
+  cases ha : accepts m c with
+  | false =>
+    rw [fromContent_rejects m c rest ha] at h0
+    cases h0
+    exact ⟨rfl, rfl⟩
+  | true =>
+    obtain ⟨u, data, _, hr⟩ := fromContent_accepts m c rest ha
+    rw [hr] at h0
+    cases h0
+
+/-! ### non-vacuity -/
+
+-- accepted: 5 unused bits, two data octets, in every mode
+example : accepts .der [5, 0xA5, 0xE0] = true := by decide
+example : accepts .cer [5, 0xA5, 0xE0] = true := by decide
+-- the empty bit string
+example : accepts .ber [0] = true := by decide
+-- rejected: empty content, unused count 8, unused bits without data octets
+example : accepts .ber [] = false := by decide
+example : accepts .ber [8, 0xFF] = false := by decide
+example : accepts .der [3] = false := by decide
+-- rejected in CER only: 1001 content octets
+example : accepts .cer (0 :: List.replicate 1000 0xFF) = false := by
+  rw [Bool.eq_false_iff]
+  intro h
+  have := ((accepts_cons_iff _ _ _).mp h).2.2 rfl
+  simp only [List.length_cons, List.length_replicate] at this
+  omega
+example : accepts .ber (0 :: List.replicate 1000 0xFF) = true :=
+  (accepts_cons_iff _ _ _).mpr ⟨by decide, fun _ => rfl, fun h => by cases h⟩
+example : accepts .cer (0 :: List.replicate 999 0xFF) = true :=
+  (accepts_cons_iff _ _ _).mpr ⟨by decide, fun _ => rfl, fun _ => by
+    simp only [List.length_cons, List.length_replicate]; omega⟩
+-- the decoder on concrete input (agrees with the theorems)
+example : runG0 (fromContentChecked (.prim .der)) (St [5, 0xA5, 0xE0, 0x99] (some 3)) =
+    .ok ((⟨5, [0xA5, 0xE0]⟩, .prim .der), St [0x99] (some 0)) := by rfl
+example : runG0 (fromContentChecked (.prim .der)) (St [3, 0x99] (some 1)) = .error .content := by rfl
+example : runG0 (skipContentChecked (.prim .der)) (St [5, 0xA5, 0xE0, 0x99] (some 3)) =
+    .ok (((), .prim .der), St [0x99] (some 0)) := by rfl
+-- the invariant holds for a non-trivial value, and its bits
+example : Inv ⟨5, [0xA5, 0xE0]⟩ := by decide
+example : (⟨5, [0xA5, 0xE0]⟩ : BitString).bitLen = .ok 11 := by rfl
+example : specBits 5 [0xA5, 0xE0] =
+    [true, false, true, false, false, true, false, true, true, true, true] := by decide
+example : (List.range 13).map (⟨5, [0xA5, 0xE0]⟩ : BitString).bit =
+    [true, false, true, false, false, true, false, true, true, true, true, false, false] := by decide
+-- an index whose low byte differs from the index (the `as u8` cast in `bit`): still beyond the end
+example : (⟨5, [0xA5, 0xE0]⟩ : BitString).bit 256 = false := by decide
 end Bcder.Props.C19
